@@ -165,7 +165,8 @@ def case_from_ident(ident):
 # ---------------------------------------------------------------- shard sets
 
 def std_shards(tier, quick_bound=12, thorough_bound=16, extra_thorough_shapes=(),
-               with_f=True, with_p=False, max_side=None, f_quick=(5, 1), chunk=2048):
+               with_f=True, with_p=False, max_side=None, f_quick=(5, 1), chunk=2048, with_g=True,
+               with_big=False):
     """Standard strata: S(12)/S(16) ∪ F (∪ P)."""
     if tier == 'quick':
         sh = space.s_shards(quick_bound, chunk=chunk, max_side=max_side)
@@ -174,6 +175,13 @@ def std_shards(tier, quick_bound=12, thorough_bound=16, extra_thorough_shapes=()
         if with_p:
             sh += space.p_shards(bound=4, offsets=(30, 31, 64, 65), pads=('blank', 'copy'),
                                  axes=('obj', 'prop', 'both'))
+            # two same-size extents beyond the 52/64-bit boundaries: 4x2 / 2x4 blocks
+            sh += space.p_shards(bound=0, offsets=(64,), pads=('blank',),
+                                 axes=('obj', 'prop', 'both'), extra_shapes=((4, 2), (2, 4)))
+            # padding in the middle (first row/column low, the rest beyond the boundary)
+            sh += [s for s in space.p_shards(bound=4, offsets=(8, 65), pads=P_PADS_ALL,
+                                             axes=('obj-mid', 'prop-mid'))
+                   if (s[5] == 'obj-mid' and s[1] >= 2) or (s[5] == 'prop-mid' and s[2] >= 2)]
     else:
         sh = space.s_shards(thorough_bound, chunk=chunk, extra_shapes=extra_thorough_shapes,
                             max_side=max_side)
@@ -182,7 +190,19 @@ def std_shards(tier, quick_bound=12, thorough_bound=16, extra_thorough_shapes=()
             sh += space.f_shards(7, 1)
         if with_p:
             sh += space.p_shards(bound=6)
+            sh += space.p_shards(bound=0, offsets=(52, 64, 128), pads=('blank', 'copy'),
+                                 axes=('obj', 'prop', 'both'), extra_shapes=((4, 2), (2, 4)))
+            sh += [s for s in space.p_shards(bound=6, offsets=(8, 31, 65, 130), pads=P_PADS_ALL,
+                                             axes=('obj-mid', 'prop-mid'))
+                   if (s[5] == 'obj-mid' and s[1] >= 2) or (s[5] == 'prop-mid' and s[2] >= 2)]
+    if with_big:
+        sh += space.big_shards(tier)
+    if with_g:
+        sh += space.g_shards(tier)
     return sh
+
+
+P_PADS_ALL = ('blank', 'cross', 'copy')
 
 
 def labelings_for(tag, both=True):
